@@ -6,6 +6,7 @@ import (
 	"encoding/json"
 	"fmt"
 	"io"
+	"math"
 	"reflect"
 	"runtime"
 	"strings"
@@ -149,11 +150,14 @@ func genLen(r *simrt.RNG) int {
 	case x < 70:
 		return r.Range(2, 120)
 	case x < 80:
-		return r.Pick(r.Range(4090, 4100), r.Range(4090, 4100), r.Range(8186, 8198), r.Range(12280, 12296), 16384, 16385)
+		return r.Pick(r.Range(4093, 4097), r.Range(4090, 4100), r.Range(8189, 8193), r.Range(8186, 8198), r.Range(12285, 12289), 16384, 16385)
 	case x < 88:
 		return r.Range(200, 3000)
 	case x < 95:
 		return r.Range(8190, 8300)
+	}
+	if r.Intn(8) == 0 {
+		return r.Pick(65535, 65536, 65537, 70000, 131072, 1<<17+1) // beyond common 64 KiB token limits
 	}
 	return r.Range(12000, 20000)
 }
@@ -272,6 +276,10 @@ func genC01(r *simrt.RNG) *Case {
 	if r.Bool() {
 		pl.Format = "fasta"
 		pl.Width = r.Pick(1, 2, 3, 60, 80, r.Range(1, 200), 4094, 4095, 4096, 4097, 8191, 8192, 8193, 100000)
+		if r.Intn(12) == 0 {
+			// "any positive line width": the extremes of int
+			pl.Width = r.Pick(math.MaxInt, math.MaxInt-1, math.MaxInt-r.Intn(64), math.MaxInt/2, math.MaxInt/2+1, math.MaxInt32, math.MaxInt32+1, 1<<62)
+		}
 		pl.Qual = r.Intn(4) == 0
 		pl.Recs = genSeqRecs(r, pl.Alpha, false, enc)
 	} else {
